@@ -14,6 +14,13 @@ bindings (callables returning value sequences), conditionals left by exceptions 
 the model judges every render on its own, so anything an engine carries over from an earlier
 compile, render or conditional (or a condition compiled as something its spelling does not
 say) shows as an output / trace difference.
+Namespace sources (vlib.c09_util, 'ns' cases): the same conditionals rendered in namespaces built
+from several sources of several kinds -- creation defaults, the mapping argument (real and
+lookalike mappings that word their KeyError in different ways), one or two client objects (with
+__getattr__ raising differently worded AttributeErrors), template variables, keyword arguments,
+and sources pushed by tags around the conditional (with / with mapping / with only / in over
+mappings or objects / let / _.namespace / a sub-template).  The model never looks at the kind
+of a source: a name no source has is undefined and counts as false.
 """
 import itertools
 import json
@@ -52,6 +59,18 @@ RULE = ('exhaustive: every chain of 1..N conditions (N=4 quick, 5 thorough) x ea
         'call} x {name, identifier expression} for each x 8 bindings x both compile orders, rendered '
         'alternately in two rounds; exhaustive exception histories: 5 ways of leaving a conditional x '
         'the tag testing the name next x 6 kinds of binding x truth x second evaluation same/opposite. '
+        'Namespace sources: exhaustive 27 source layouts (mapping argument alone, with defaults / keyword '
+        'arguments / template variables / one or two clients around it, with / with mapping / with only / '
+        'with mapping only / in mapping / in over objects / let / _.namespace / sub-template with and without '
+        'defaults inside) x 12 mapping styles (dict, dict subclass, ChainMap, UserDict with __missing__, and '
+        'lookalikes raising KeyError of the key, the case-folded key, a message, nothing, a pair, another key, '
+        'a subclass, a tuple; objects: 5 AttributeError wordings) x an undefined mixed-case name in {if, elif '
+        'before a true condition, last elif, tested twice, unless, call}; seeded: chains of 1..4 / unless / '
+        'call over every condition kind with undefined names frequent, in drawn namespaces of 1..10 sources, '
+        'every defined name bound in a drawn source (logged values in a mapping that reports lookups), all '
+        'body types, references, enclosing tags and armed later conditions as in the other families; 40 % of '
+        'the seeded histories deliver the bindings of each round through other sources (one mapping of a drawn '
+        'style as the only source, a mapping of a drawn style under the keyword arguments, a client object). '
         'distinct = distinct full case descriptions; non-trivial = at least one condition whose '
         'evaluation is observable (event or undefined name) or a rendered body re-reference')
 ASSUMPTIONS = [
@@ -62,7 +81,15 @@ ASSUMPTIONS = [
     'a lookup in the caller-supplied mapping is the evaluation event of a plain (non-callable) named value',
     'a named condition occurring twice in one chain is expected to be evaluated once ("at most once per '
     'conditional") and to have the same truth both times',
-    'dtml-call of an undefined name: only "emits nothing" is demanded when it returns; raising is not judged',
+    'dtml-call of an undefined name: only "emits nothing" is demanded when it returns; raising is not judged, '
+    'except that it may not depend on the kind of the namespace sources: a call that raises in a namespace of '
+    'lookalike mappings / objects but returns when every source is an ordinary dict / object is reported',
+    'a name is undefined when no source of the namespace has it; a mapping says so by raising KeyError '
+    '(any subclass, any arguments), an object by raising AttributeError (any subclass, any arguments); '
+    'sources that say it in another way (NameError, returning a default) are not generated',
+    'namespace sources: each defined name is bound in exactly one source (the order in which sources shadow '
+    'each other is another property); inside <dtml-with .. only> every name the conditional and its bodies '
+    'use is bound in that one source; there is at most one `only` per case',
     'a blank body is blanks and tabs without a newline: blanks + newline right after a block tag are '
     'skipped by the parser by design (skip_eol), which is not this property',
     'the deprecated standalone <dtml-else name>...</dtml-else> block (an unless synonym) is not exercised',
@@ -96,6 +123,9 @@ DUP_BIND = (('nc', True), ('nc', False), ('nm', True), ('nm', False), ('un', Non
 SCRIPTS = {'quick': 8000, 'thorough': 80000}        # seeded histories
 POSITIONS = ('if', 'elif', 'unless', 'call')        # where a history grid puts the condition on its name
 SPELL_BIND = tuple((k, t) for k in U.EV_KINDS for t in (True, False))
+NS_SEEDED = {'quick': 7000, 'thorough': 70000}     # seeded namespace-source cases
+NS_KINDS = ('nc', 'nf', 'nb', 'nt', 'nm', 'np', 'ex', 'ei') + ('un',) * 5      # undefined names are frequent
+NS_POSITIONS = ('if', 'elif', 'last elif', 'twice', 'unless', 'call')
 EXC_FIRST = (('chain', 'body'), ('chain', 'cond'), ('unless', 'body'), ('chain', 'ret'), ('unless', 'ret'))
 
 # the options of one condition in the exhaustive family
@@ -190,6 +220,180 @@ def gen_ext(rng, maxn):
     return case
 
 
+
+# ---------------------------------------------------------------- namespace sources ('ns' cases)
+def draw_ns(rng):
+    """A namespace made of several sources of several kinds (see vlib.c09_util, 'ns')."""
+    ns = {'g': rng.random() < 0.25,
+          'm': rng.choice((None, None) + U.MAP_STYLES),
+          'c': [rng.choice(U.OBJ_STYLES) for _ in range(rng.choice((0, 0, 0, 1, 1, 2)))],
+          'ctuple': rng.random() < 0.3, 'v': rng.random() < 0.15, 'k': rng.random() < 0.5,
+          'sub': rng.choice((None,) * 5 + ('plain', 'defaults')), 'inner': []}
+    for _ in range(rng.choice((0, 0, 0, 1, 1, 2, 3))):
+        kind = rng.choice(U.INNER_KINDS)
+        if kind in U.INNER_ONLY and any(k in U.INNER_ONLY for k, st in ns['inner']):
+            kind = kind[:-1]                    # one `only` per case: with / with mapping instead
+        ns['inner'].append([kind, ns_style(rng, kind)])
+    return ns
+
+
+def ns_style(rng, kind, i=None):
+    pick = rng.choice if i is None else (lambda seq: seq[i % len(seq)])
+    if kind in U.INNER_MAPPING:
+        return pick(U.MAP_STYLES)
+    if kind in U.INNER_OBJECT:
+        return pick(U.OBJ_STYLES)
+    return None
+
+
+def attach_ns(rng, case, ns):
+    """Put the case into the namespace: choose the source that binds each name (case['ns']['place'])."""
+    if not (ns.get('g') or ns.get('m') or ns.get('c') or ns.get('v') or ns.get('k')):
+        ns['k'] = True                          # something has to hold the names of the surrounding tags
+    slots = U.ns_slots(ns)
+    outer = [sl for sl in slots if sl[0] not in 'is']
+    only = U.ns_only(ns)
+    if only is None:
+        visible = slots
+    else:                                       # inside `only` the namespace is that source and deeper ones
+        visible = [sl for sl in slots if sl[0] == 'i' and int(sl[1:]) >= only]
+    loggable = [sl for sl in U.ns_loggable(ns) if sl in visible]
+    place = {}
+    for n in U.SUPPORT:
+        place[n] = rng.choice(outer)
+    for i, (kind, style) in enumerate(ns['inner']):
+        if kind in U.INNER_MAPPING or kind in U.INNER_OBJECT:
+            place['nw%d' % i] = 'i%d' % only if (only is not None and i > only) else rng.choice(outer)
+    if ns.get('sub'):
+        place['nsub'] = rng.choice(outer)
+    for c in case['conds']:
+        if c['k'] == 'nm' and not loggable:
+            c['k'] = 'np'                       # no source that could report the lookup
+        if c['k'] in ('un', 'ex') or c['n'] in place:
+            continue
+        place[c['n']] = rng.choice(loggable if c['k'] == 'nm' else visible)
+    ns['place'] = place
+    case['ns'] = ns
+    return case
+
+
+def gen_ns(rng):
+    """A seeded chain / unless / call over every kind of condition, undefined names frequent, names in
+    mixed case (a case-folding source reports another key than the one looked up)."""
+    ns = draw_ns(rng)
+    fam = rng.choice(('chain',) * 5 + ('unless',) * 2 + ('call',))
+    conds = []
+    for i in range(rng.randint(1, 4) if fam == 'chain' else 1):
+        named = [c for c in conds if c['k'] in U.NAMED]
+        if named and rng.random() < 0.25:
+            c = dict(rng.choice(named))
+            c['a'] = rng.randrange(6)
+        else:
+            c = make_cond(rng, rng.choice(NS_KINDS), rng.random() < 0.4, 'Nc%d' % (i + 1))
+        conds.append(c)
+    # the kind of a name is decided before the bodies are drawn (a logging value needs a logging source)
+    probe = attach_ns(rng, {'conds': conds}, ns)
+    if fam == 'call':
+        case = {'fam': 'call', 'style': rng.choice(('dtml', 'dtml', 'sgml')),
+                'outer': rng.choice((None, None, 'twice') + U.WRAPPERS), 'conds': conds,
+                'bodies': [[]], 'else': None}
+    else:
+        has_else = fam == 'chain' and rng.random() < 0.6
+        if has_else and conds[0]['k'] in U.NAMED and rng.random() < 0.3:
+            has_else = 'named'
+        case = finish_case(rng, fam, conds, has_else)
+        case['boom'] = rng.random() < 0.3
+    case['ns'] = probe['ns']
+    return case
+
+
+# the source layouts of the exhaustive grid: which sources exist, outermost first; MAP / OBJ are filled
+# with every style
+NS_LAYOUTS = (
+    {'m': 1}, {'m': 1, 'k': 1}, {'g': 1, 'm': 1}, {'g': 1, 'm': 1, 'k': 1}, {'m': 1, 'v': 1},
+    {'m': 1, 'c': 1}, {'m': 1, 'c': 2, 'k': 1}, {'c': 1}, {'c': 1, 'ctuple': 1, 'k': 1}, {'c': 2}, {'k': 1},
+    {'k': 1, 'inner': ('withm',)}, {'k': 1, 'inner': ('withmo',)}, {'k': 1, 'inner': ('with',)},
+    {'k': 1, 'inner': ('witho',)}, {'k': 1, 'inner': ('inm',)}, {'k': 1, 'inner': ('ino',)},
+    {'m': 1, 'inner': ('withm',)}, {'m': 1, 'inner': ('withmo',)}, {'m': 1, 'inner': ('let',)},
+    {'m': 1, 'inner': ('withns',)}, {'m': 1, 'sub': 'plain'}, {'m': 1, 'sub': 'defaults'},
+    {'m': 1, 'inner': ('withm', 'withmo')}, {'m': 1, 'inner': ('withmo', 'withm')},
+    {'m': 1, 'c': 1, 'inner': ('inm', 'with')}, {'m': 1, 'sub': 'plain', 'inner': ('withm',)},
+)
+
+
+def grid_ns(rng, layout, si, pos):
+    """One case of the exhaustive grid: an undefined name in tag position `pos`, in a namespace of the given
+    layout whose mappings all have style number si (objects: si modulo the object styles)."""
+    ms = U.MAP_STYLES[si]
+    os_ = U.OBJ_STYLES[si % len(U.OBJ_STYLES)]
+    ns = {'g': bool(layout.get('g')), 'm': ms if layout.get('m') else None,
+          'c': [os_] * layout.get('c', 0), 'ctuple': bool(layout.get('ctuple')),
+          'v': bool(layout.get('v')), 'k': bool(layout.get('k')), 'sub': layout.get('sub'),
+          'inner': [[kind, ns_style(rng, kind, si)] for kind in layout.get('inner', ())]}
+    un = make_cond(rng, 'un', None, 'NoSuch1')
+    if pos == 'if':
+        fam, conds = 'chain', [un]
+    elif pos == 'elif':                 # reached behind a false condition, a true one follows
+        fam, conds = 'chain', [make_cond(rng, rng.choice(('nc', 'np', 'ex')), False, 'Nc1'), un,
+                               make_cond(rng, rng.choice(('nc', 'np', 'nm')), True, 'Nc3')]
+    elif pos == 'last elif':
+        fam, conds = 'chain', [make_cond(rng, rng.choice(('nc', 'np', 'nf')), False, 'Nc1'), un]
+    elif pos == 'twice':                # the same undefined name tested twice by one conditional
+        fam, conds = 'chain', [un, dict(un, a=rng.randrange(6)), make_cond(rng, 'nc', rng.random() < 0.5, 'Nc3')]
+    elif pos == 'unless':
+        fam, conds = 'unless', [un]
+    else:
+        fam, conds = 'call', [un]
+    attach_ns(rng, {'conds': conds}, ns)
+    if fam == 'call':
+        case = {'fam': 'call', 'style': rng.choice(('dtml', 'sgml')), 'outer': rng.choice((None, None, 'twice', 'in')),
+                'conds': conds, 'bodies': [[]], 'else': None}
+    else:
+        case = finish_case(rng, fam, conds, fam == 'chain', outers=(None, None, None, 'in', 'twice', 'try'))
+    case['ns'] = ns
+    return case
+
+
+def ns_facts(ctx, case, chosen):
+    """Coverage of the namespace-source cases (not part of the oracle)."""
+    ns = case['ns']
+    conds, fam = case['conds'], case['fam']
+    stack = U.ns_stack(ns)
+    ctx.count('ns:cases')
+    ctx.table('ns sources under the conditional', len(stack))
+    ctx.table('ns sources given to the template (outermost first)',
+              '>'.join(sl for sl in ('g', 'm', 'c0', 'c1', 'v', 'k') if sl in U.ns_slots(ns)))
+    ctx.table('ns source-adding tags around the conditional', len(ns.get('inner') or ()))
+    for kind, style in ns.get('inner') or ():
+        ctx.table('ns inner tag', kind)
+    if ns.get('sub'):
+        ctx.table('ns inner tag', 'sub-template/' + ns['sub'])
+    for n, sl in ns['place'].items():
+        if n not in U.SUPPORT and not n.startswith('nw') and n != 'nsub':
+            ctx.table('ns source binding a condition name', sl[0] if sl[0] != 'i' else ns['inner'][int(sl[1:])][0])
+    if fam == 'chain':
+        reached = conds[:(chosen + 1) if isinstance(chosen, int) else len(conds)]
+    else:
+        reached = conds
+    seen = set()
+    for i, c in enumerate(reached):
+        if c['k'] != 'un':
+            continue
+        pos = {'unless': 'unless', 'call': 'call'}.get(fam) or ('if' if i == 0 else 'elif')
+        if c['n'] in seen:
+            ctx.count('ns:undefined name tested again by the same conditional')
+        seen.add(c['n'])
+        ctx.count('ns:undefined name looked up')
+        for j, (sl, typ, st) in enumerate(stack):
+            where = 'outermost' if j == 0 else ('innermost' if j == len(stack) - 1 else 'between')
+            if len(stack) == 1:
+                where = 'only source'
+            ctx.table('ns undefined name falls through', '%s/%s' % (typ, st))
+            ctx.table('ns undefined name: source x where', '%s/%s/%s' % (typ, st, where))
+            if j == 0:
+                ctx.table('ns undefined name: tag x outermost source', '%s/%s/%s' % (pos, typ, st))
+
+
 # ---------------------------------------------------------------- histories (scripts)
 def tok(rng, truth=None):
     t = (rng.random() < 0.45) if truth is None else truth
@@ -280,8 +484,13 @@ def gen_script(rng, uid):
     sched = [[ti, rng.randrange(len(rounds)), False] for ti in order]
     for _ in range(rng.randint(0, 3)):
         sched.append([rng.randrange(len(templates)), rng.randrange(len(rounds)), rng.random() < 0.2])
-    return {'fam': 'script', 'uid': uid, 'compile': rng.choice(('first', 'lazy')),
-            'templates': templates, 'rounds': rounds, 'schedule': sched}
+    script = {'fam': 'script', 'uid': uid, 'compile': rng.choice(('first', 'lazy')),
+              'templates': templates, 'rounds': rounds, 'schedule': sched}
+    if rng.random() < 0.4:
+        # how the bindings of each round reach the template: other kinds of namespace sources
+        script['nsrc'] = [rng.choice((None, ['m', rng.choice(U.MAP_STYLES)], ['mk', rng.choice(U.MAP_STYLES)],
+                                      ['c', rng.choice(U.OBJ_STYLES)])) for _ in rounds]
+    return script
 
 
 def position_segment(rng, uid, pos, mode, x, safe, **kw):
@@ -359,12 +568,12 @@ def observe_script(script):
             res.append((sources[ti], None, [], early))
             break
         rec = Recorder()
-        mapping, kw = U.make_script_namespace(script, ri, rec)
+        client, mapping, kw = U.make_script_call(script, ri, rec)
         out = exc = None
         try:
             if fresh or ti not in compiled:
                 compiled[ti] = HTML(sources[ti])
-            out = compiled[ti](None, mapping, **kw)
+            out = compiled[ti](client, mapping, **kw)
         except Exception as e:
             exc = e
         res.append((sources[ti], out, [(k, s) for k, s, d in rec.events], exc))
@@ -429,6 +638,15 @@ def run_script(ctx, script, family='seeded'):
             for c in seg['conds']:
                 ctx.table('script condition spelling x binding',
                           '%s/%s' % (c['k'], script['rounds'][ri][c['n']]['k']))
+                if script.get('nsrc') and script['nsrc'][ri]:
+                    how = '/'.join(script['nsrc'][ri])
+                    ctx.table('script namespace source', how)
+                    if c['k'] == 'nx' and script['rounds'][ri][c['n']]['k'] == 'un':
+                        ctx.table('script undefined name x namespace source', how)
+                        if any(script['rounds'][r][c['n']]['k'] != 'un' for tj, r, f in script['schedule']
+                               if tj == ti):
+                            ctx.count('script:name undefined in an odd namespace, defined in another render '
+                                      'of the same template')
     if ctx.shard % 8 == 7 and not ctx.samples and len(script['templates']) > 1 and \
             any(p['raised'] for p in preds):
         ctx.sample({'history': [{'template': ti, 'round': ri, 'compiled again': fresh, 'source': g[0],
@@ -443,8 +661,15 @@ def observe(case, chosen=None):
     from DocumentTemplate.DT_HTML import HTML
     src = U.build_source(case)
     rec = Recorder()
-    mapping, kw = U.make_namespace(case, rec, U.armed_names(case, chosen))
     out = exc = None
+    if case.get('ns'):
+        tpl, client, mapping, kw = U.make_ns_render(case, rec, U.armed_names(case, chosen))
+        try:
+            out = tpl(client, **kw) if mapping is None else tpl(client, mapping, **kw)
+        except Exception as e:
+            exc = e
+        return src, out, [(k, s) for k, s, d in rec.events], exc
+    mapping, kw = U.make_namespace(case, rec, U.armed_names(case, chosen))
     try:
         out = HTML(src)(None, mapping, **kw)
     except Exception as e:                      # judged by the caller
@@ -547,14 +772,30 @@ def run_case(ctx, case, sample=False):
         if kinds_of.get(name) in U.CALL_EVENT or kinds_of.get(name) == 'nm':
             ctx.count('refs:rendered re-reference of an observable name')
 
+    if case.get('ns'):
+        ns_facts(ctx, case, chosen)
+
     # ---- verdict
     if exc is not None:
         if fam == 'call' and conds[0]['k'] == 'un':
             ctx.table('call of undefined name', 'raises %s' % type(exc).__name__)
+            if case.get('ns'):
+                # whether a name is defined does not depend on how a source words its "no": the same
+                # call over ordinary dicts / objects must then raise as well
+                ctx.count('ns:call of an undefined name compared with the plain-source twin')
+                tsrc, tout, tev, texc = observe(U.ns_plain(case), chosen)
+                if texc is None:
+                    what = ('call of an undefined name raised %s: %s, but returns %r when every source is an '
+                            'ordinary dict / object' % (type(exc).__name__, str(exc)[:120], U_short(tout, 60)))
+                    ctx.violation(what, case, mech=classify(case, what), key=key + '_ns_raise',
+                                  detail={'source': src, 'namespace': case['ns']})
             return
         what = 'render raised %s: %s' % (type(exc).__name__, str(exc)[:160])
-        ctx.violation(what, case, mech=classify(case, what), key=key + '_raise',
-                      detail={'source': src, 'expected': exp_out, 'events': got_ev})
+        detail = {'source': src, 'expected': exp_out, 'events': got_ev}
+        if case.get('ns'):
+            detail['namespace sources, outermost first'] = U.ns_stack(case['ns'])
+        ctx.violation(what, case, mech=classify(case, what), key=key + ('_ns' if case.get('ns') else '') + '_raise',
+                      detail=detail)
         return
     if fam == 'call' and conds[0]['k'] == 'un':
         ctx.table('call of undefined name', 'returns')
@@ -568,14 +809,21 @@ def run_case(ctx, case, sample=False):
         problems.append('call emitted text')
     if problems:
         what = '; '.join(problems)
-        ctx.violation(what, case, mech=classify(case, what), key=key,
-                      detail={'source': src, 'expected_output': exp_out, 'output': out,
-                              'expected_events': exp_ev, 'events': got_ev})
+        detail = {'source': src, 'expected_output': exp_out, 'output': out,
+                  'expected_events': exp_ev, 'events': got_ev}
+        if case.get('ns'):
+            detail['namespace sources, outermost first'] = U.ns_stack(case['ns'])
+        ctx.violation(what, case, mech=classify(case, what), key=key + ('_ns' if case.get('ns') else ''),
+                      detail=detail)
     if sample or wants_sample(ctx, case, chosen, rendered_refs):
-        ctx.sample({'source': src, 'conditions': [(c['k'], c['n'], None if c['k'] == 'un' else
-                                                   repr(U.value_of(c))) for c in conds],
-                    'output': out, 'events': got_ev, 'predicted_output': exp_out,
-                    'predicted_events': exp_ev})
+        smp = {'source': src, 'conditions': [(c['k'], c['n'], None if c['k'] == 'un' else
+                                              repr(U.value_of(c))) for c in conds],
+               'output': out, 'events': got_ev, 'predicted_output': exp_out,
+               'predicted_events': exp_ev}
+        if case.get('ns'):
+            smp['namespace sources under the conditional, outermost first'] = U.ns_stack(case['ns'])
+            smp['names bound in'] = case['ns']['place']
+        ctx.sample(smp)
     return out
 
 
@@ -583,6 +831,9 @@ def wants_sample(ctx, case, chosen, rendered_refs):
     """The driver keeps one sample per shard: pick a different kind of case in each shard."""
     if ctx.samples or ctx.shard % 8 == 7:       # shards 7, 15, ...: a history is the sample
         return False
+    if ctx.shard % 8 == 6:                      # shards 6, 14, ...: an undefined name in an odd namespace
+        return bool(case.get('ns')) and len(U.ns_stack(case['ns'])) >= 3 and \
+            any(c['k'] == 'un' for c in case['conds']) and bool(rendered_refs)
     fam, conds, sel = case['fam'], case['conds'], ctx.shard % 4
     deep = any(len(r[2]) >= 2 for r in rendered_refs)
     if sel == 0:
@@ -617,6 +868,13 @@ def run_unless(ctx, case, sample=False):
                              U_short(out_u, 80), U_short(out_i, 80)),
                           case, mech=classify(case, 'complement'),
                           key='unless_pair_%s%s' % (case['conds'][0]['k'], case['conds'][0]['t']))
+
+
+def run_ns(ctx, case):
+    if case['fam'] == 'unless':
+        run_unless(ctx, case)
+    else:
+        run_case(ctx, case)
 
 
 def controls(ctx):
@@ -861,6 +1119,23 @@ def run(ctx, spec):
         serial += 1
         run_script(ctx, gen_script(rng, uid(serial)))
         ctx.count('script:seeded histories')
+    # 7. namespace sources: an undefined name falls through every source of the namespace, whatever kind of
+    #    mapping / object each one is and however it words its KeyError / AttributeError.
+    #    7a exhaustive: source layout x style of the sources x tag position of the undefined name
+    idx = 0
+    for layout in NS_LAYOUTS:
+        for si in range(len(U.MAP_STYLES)):
+            for pos in NS_POSITIONS:
+                mine = idx % ctx.nshards == ctx.shard
+                idx += 1
+                if not mine:
+                    continue
+                run_ns(ctx, grid_ns(rng, layout, si, pos))
+                ctx.count('ns:exhaustive layout x style x position cases')
+    #    7b seeded: chains / unless / call over all kinds of conditions in drawn namespaces
+    for _ in range(NS_SEEDED[tier] // ctx.nshards):
+        run_ns(ctx, gen_ns(rng))
+        ctx.count('ns:seeded cases')
     reach.stop()
     reach.report(ctx)
 
@@ -893,9 +1168,28 @@ def finish(agg):
              'script:render in which a callable returned another value on a later evaluation',
              'script:conditional left by an exception',
              'script:name tested again after the conditional that remembered it was left by an exception']
+    need += ['ns:cases', 'ns:seeded cases', 'ns:undefined name looked up',
+             'ns:undefined name tested again by the same conditional']
     for k in need:
         if not c.get(k):
             inc.append('deciding counter is zero: ' + k)
+    nsgrid = len(NS_LAYOUTS) * len(U.MAP_STYLES) * len(NS_POSITIONS)
+    if c.get('ns:exhaustive layout x style x position cases', 0) != nsgrid:
+        inc.append('exhaustive namespace-source enumeration incomplete: %s of %d'
+                   % (c.get('ns:exhaustive layout x style x position cases'), nsgrid))
+    styles = [('map', st) for st in U.MAP_STYLES] + [('obj', st) for st in U.OBJ_STYLES]
+    for typ, st in styles:
+        for pos in ('if', 'elif', 'unless', 'call'):
+            if not t.get('ns undefined name: tag x outermost source', {}).get('%s/%s/%s' % (pos, typ, st)):
+                inc.append('namespace sources: no undefined name in %s looked up with a %s/%s source outermost'
+                           % (pos, typ, st))
+        for where in ('outermost', 'between', 'innermost', 'only source'):
+            if not t.get('ns undefined name: source x where', {}).get('%s/%s/%s' % (typ, st, where)):
+                inc.append('namespace sources: no undefined name fell through a %s/%s source as %s'
+                           % (typ, st, where))
+    for kind in U.INNER_KINDS + ('sub-template/plain', 'sub-template/defaults'):
+        if not t.get('ns inner tag', {}).get(kind):
+            inc.append('namespace sources: inner tag never generated: ' + kind)
     spell = (len(POSITIONS) * 2) ** 2 * len(SPELL_BIND) * 2
     if c.get('script:exhaustive spelling-history cases', 0) != spell:
         inc.append('exhaustive spelling-history enumeration incomplete: %s of %d'
@@ -911,6 +1205,13 @@ def finish(agg):
     for how in ('body', 'cond', 'ret'):
         if not t.get('script conditional left by', {}).get(how):
             inc.append('history: no conditional was left by: ' + how)
+    if not c.get('script:name undefined in an odd namespace, defined in another render of the same template'):
+        inc.append('history: no name was undefined in a render with other namespace sources and defined in '
+                   'another render of the same template')
+    for how in ('m', 'mk', 'c'):
+        if not any(k.startswith(how + '/') and n for k, n in
+                   t.get('script undefined name x namespace source', {}).items()):
+            inc.append('history: no undefined name rendered with namespace source kind ' + how)
     for bk in ('nt', 'nm', 'un'):
         if not t.get('script condition spelling x binding', {}).get('nx/%s' % bk):
             inc.append('history: a name never rendered over a %s binding' % bk)
@@ -973,10 +1274,13 @@ def finish(agg):
                                             'of the four = %d cases; repeated names: %d cases; '
                                             'body shapes: %d forms x all wrapper stacks of depth 0..%d '
                                             'x %d named kinds x true/false = %d cases; spelling '
-                                            'histories: %d; exception histories: %d'
+                                            'histories: %d; exception histories: %d; namespace '
+                                            'sources: %d layouts x %d styles x %d tag positions of an '
+                                            'undefined name = %d'
                                             % (n, len(OPTS), total, GRID_N[agg['tier']], grid, dups,
                                                len(U.FORMS), SHAPE_DEPTH[agg['tier']],
-                                               len(U.NAMED_DEFINED), shapes, spell, exch),
+                                               len(U.NAMED_DEFINED), shapes, spell, exch,
+                                               len(NS_LAYOUTS), len(U.MAP_STYLES), len(NS_POSITIONS), nsgrid),
                          'explanation': 'values, spelling, enclosing tag and body references of the '
                                         'exhaustive chains are seeded; seeded families are extra'}}
 
